@@ -105,6 +105,18 @@ def plan(tier, seed):
             cfg['schedule'] = precip_gen.gen_schedule(rng, cfg['system'], precip.schedule_eval(cfg['schedule'], 0.0), True, sum(cfg['segments']))
         cfg['max_steps'] = 400 if tier == 'quick' else 1200
         cases.append({'kind': 'sched', 'cfg': cfg, 'via': ['ctor', 'setter'][i % 2], 'weight': 1e5})
+    # binary system with TWO precipitate phases (Cu-Ti): one interfacial-composition table per phase must follow the schedule
+    for i in range(2 if tier == 'quick' else 12):
+        rng = core.case_rng(seed, PROPERTY, 2500 + i)
+        cfg = precip_gen.gen_config(rng, system='cuti', tier=tier, allow_noniso=True, grid_class='in_range', sites=['bulk', 'dislocations'])
+        for _ in range(20):
+            if cfg['schedule']['kind'] != 'iso':
+                break
+            cfg['schedule'] = precip_gen.gen_schedule(rng, cfg['system'], precip.schedule_eval(cfg['schedule'], 0.0), True, sum(cfg['segments']))
+        cfg['pbm'].update({'bins': min(cfg['pbm']['bins'], 32), 'minBins': min(cfg['pbm']['minBins'], 24)})
+        cfg['pbm']['maxBins'] = max(min(cfg['pbm']['maxBins'], 48), cfg['pbm']['minBins'] + 5, cfg['pbm']['bins'])
+        cfg['max_steps'] = 50 if tier == 'quick' else 200
+        cases.append({'kind': 'sched', 'cfg': cfg, 'via': ['ctor', 'setter'][i % 2], 'weight': 3e5})
     # multi-stage treatments: a new temperature (constant / break points) set through the public setter between solve() calls
     # (added after seeded change C13-b: the schedule was not re-evaluated for 'isothermal' specifications)
     for i in range(4 if tier == 'quick' else 24):
